@@ -215,7 +215,8 @@ func (rt *runtime) cmplEvaluateNodeForInStatement(node *nodeForInStatement) Valu
 				case valueResult:
 					switch value.evaluateBreakContinue(labels) {
 					case resultReturn:
-						enumerateValue = value
+						result = value
+						obj = nil
 						return false
 					case resultBreak:
 						obj = nil
